@@ -152,7 +152,8 @@ class C02(Prop):
     quick_examples = 1200
     thorough_examples = 4000
     floors = {'compared': 0.5, 'all_frame': 0.2, 'has_self': 0.15, 'watch': 0.15, 'container_local': 0.2,
-              'app_stack_depth>=2': 0.3}
+              'app_stack_depth>=2': 0.3, 'hits_in_several_threads': 0.05,
+              'watch_on_local_shadowing_a_global': 0.02}
 
     def strategy(self, tier):
         big = tier == 'thorough'
@@ -168,7 +169,8 @@ class C02(Prop):
             'values': values.value_recipes(FRIENDLY, min_nodes=6, max_nodes=14 if big else 10, max_items=12,
                                            str_keys_only=True),
             'frame_type': st.sampled_from(['all_frame', 'single_frame', 'all_frame', 'no_frame', None, 'bogus']),
-            'watches': st.lists(st.sampled_from(['n', 'n + 1', 'h1', 'h2', 'a', '[n, n]', 'self', 'self.seed']),
+            'watches': st.lists(st.sampled_from(['n', 'n + 1', 'h1', 'h2', 'a', '[n, n]', 'self', 'self.seed', 'G_INT',
+                                                   'g_helper', 'G_LIST', 'G_STR']),
                                 max_size=2, unique=True),
             'route': st.sampled_from(['triggers', 'response']),
             'cfg': st.fixed_dictionaries({
@@ -255,6 +257,11 @@ class C02(Prop):
             out.cls('app_stack_depth>=2')
         if compared[0] and info['container_local']:
             out.cls('container_local')
+        if len({ev.thread for ev in ip.events if ev.reading is not None}) >= 2:
+            out.cls('hits_in_several_threads')
+        if any(s[0] == 'set' and s[1] in ('G_INT', 'g_helper', 'G_LIST') for f in recipe['prog']['funcs']
+               for s in f['body']) and any(w in ('G_INT', 'g_helper', 'G_LIST') for w in watches):
+            out.cls('watch_on_local_shadowing_a_global')
         out.nontrivial = compared[0] > 0 and info['depth'] >= 2 and info['container_local']
         lab.reset_world()
         return out
